@@ -18,6 +18,28 @@ fn mk_sig<CS: Suite>(e: &Integer, s: &Integer, v: &Integer) -> Option<Sig<CS>> w
     from_json(&json!({"CL03": {"e": int_leaf(e), "s": int_leaf(s), "v": int_leaf(v)}}))
 }
 
+/// Byte codec on signature objects whose components have unusual magnitudes (short v, small e / s): the codec is positional
+/// for e and s and takes v as the rest, so every such object must survive to_bytes / from_bytes unchanged. Shared with C18.
+pub fn codec_magnitudes<CS: Suite>(env: &Env, n: &Integer) where CL03<CS>: Scheme {
+    {
+        let n = n.clone(); let bits = n.significant_bits();
+        let id = format!("{}/codec-magnitudes", CS::NAME);
+        if env.want(&id) {
+            let es = [Integer::from(1), pow2(CS::le - 1) + 1u32, pow2(CS::le) - 1u32];
+            let ss = [Integer::from(0), Integer::from(1), pow2(CS::ls) - 1u32];
+            let vs = [Integer::from(1), Integer::from(255), Integer::from(256), pow2(bits - 9), pow2(bits - 8) - 1u32, pow2(bits - 8), pow2(bits - 16) + 5u32, n.clone() - 1u32];
+            for e in &es { for s_ in &ss { for v in &vs {
+                env.ctx.state(&[id.as_bytes(), e.to_string_radix(16).as_bytes(), s_.to_string_radix(16).as_bytes(), v.to_string_radix(16).as_bytes()]); env.ctx.step();
+                if let Some(sig) = mk_sig::<CS>(e, s_, v) {
+                    let rt = mccore::guard_val(|| Sig::<CS>::from_bytes(&sig.to_bytes()));
+                    if rt.clone().ok().as_ref() != Some(&sig) { env.ctx.violation(&format!("{}:roundtrip:bytes:magnitudes", env.ctx.prop), &format!("from_bytes(to_bytes(sig)) != sig for a signature object with e of {} bits, s of {} bits, v of {} bits: {}", e.significant_bits(), s_.significant_bits(), v.significant_bits(), rt.kind()), env.case(&id, json!({"suite": CS::NAME, "e_bits": e.significant_bits(), "s_bits": s_.significant_bits(), "v_bits": v.significant_bits()}))); }
+                }
+                env.ctx.class("codec-magnitudes"); env.ctx.trace();
+            } } }
+        }
+    }
+}
+
 pub fn run<CS: Suite>(env: &Env, primes_out: &std::sync::Mutex<Vec<Value>>)
 where
     CL03<CS>: Scheme<PubKey = CL03PublicKey, PrivKey = CL03SecretKey>,
@@ -124,5 +146,29 @@ where
         env.ctx.trace();
         if r.vec == vec![2, 3] { env.ctx.sample(json!({"root": r.id, "attributes": names, "negatives": "replace / shift by k*e / oversized / negative / swap / field edits / other bases / other key"})); }
     });
+    codec_magnitudes::<CS>(env, &worlds[0].pk.N);
+    // (b) base sets that are valid group elements but not quadratic residues (N - a_i): issuance takes an e-th root, which exists
+    //     and is unique in all of Z_N^*, so these signatures verify too (an inverse of e taken modulo the order of QR_N only would not do)
+    {
+        let w = &worlds[0];
+        let cases: Vec<(usize, Vec<usize>)> = vec![(1, vec![0]), (2, vec![0]), (2, vec![1]), (2, vec![0, 1]), (3, vec![1])];
+        par_for(&cases, |_, (n, neg)| {
+            let id = format!("{}/non-residue-bases/n{}/negated{:?}", CS::NAME, n, neg);
+            if !env.want(&id) || env.ctx.out_of_time() { return; }
+            let mut b = w.bases.0[..*n].to_vec(); for &i in neg { b[i] = w.pk.N.clone() - &b[i]; }
+            let bases = Bases(b);
+            for round in 0..16u32 {
+                env.ctx.state(&[id.as_bytes(), &round.to_be_bytes()]); env.ctx.step();
+                // odd attributes at the negated positions keep the product a non-residue
+                let m: Vec<Integer> = distinct_attrs(seed + round as u64, "c13-nonres", *n).into_iter().map(|x| x | Integer::from(1)).collect();
+                let det = json!({"suite": CS::NAME, "n": n, "negated_bases": neg, "round": round});
+                let sig: O<Sig<CS>> = mccore::guard_val(|| Sig::<CS>::sign_multiattr(&w.pk, &w.sk, &bases, &msgs(&m)));
+                match sig { O::Ok(sg) => { let mv = msgs(&m); expect_bool(env, &id, "verify_multiattr(sign_multiattr(m)) over bases N - a_i", &vcall(|| sg.verify_multiattr(&w.pk, &bases, &mv)), true, false, "complete:non-residue-bases", det.clone());
+                        if *n == 1 { let sg1: O<Sig<CS>> = mccore::guard_val(|| Sig::<CS>::sign(&w.pk, &w.sk, &bases, &msg(&m[0]))); if let O::Ok(s1) = sg1 { expect_bool(env, &id, "verify(sign(m)) over base N - a_0", &vcall(|| s1.verify(&w.pk, &bases, &mv[0])), true, false, "complete:non-residue-bases", det.clone()); } } }
+                    o => env.ctx.violation("C13:sign-failed:non-residue-bases", &o.describe(), env.case(&id, det)) }
+                env.ctx.class("non-residue-bases"); env.ctx.trace();
+            }
+        });
+    }
     for (i, w) in worlds.iter().enumerate() { primes_out.lock().unwrap().push(json!({"kind": "key", "root": format!("{}/key{}", CS::NAME, i), "p": w.sk.p.to_string_radix(16), "q": w.sk.q.to_string_radix(16), "N": w.pk.N.to_string_radix(16), "secparam": CS::SECPARAM})); }
 }
